@@ -9,7 +9,7 @@ ASSUMPTIONS = [
     "class / function / method / argparse (ast.unparse is a function of the tree, so equal trees give byte-identical text)",
     "the parsed IR is re-emitted under the same kind, name and options; `_internal` (carried bodies) is dropped - bodies are C16's subject",
 ]
-SH = ["p1_optint_d", "p1_optbool_f", "p1_int", "p1_int_d", "p1_str_s", "p1_bool_b", "p1_optint_none", "p2_d_then_plain", "p2_plain_then_d", "p1_ret", "p1_ret_d",
+SH = ["p1_code2", "p1_optint_d", "p1_optbool_f", "p1_int", "p1_int_d", "p1_str_s", "p1_bool_b", "p1_optint_none", "p2_d_then_plain", "p2_plain_then_d", "p1_ret", "p1_ret_d",
       "ret_only", "p1_kwargs", "p0", "p1_literal", "p1_code", "p1_untyped_d", "p3_mixed"]
 ARGP = [s for s in SH if s in C04.EXPR]
 
@@ -30,6 +30,8 @@ def cell_kf(kind, sid):
                 seen = True
         if kind == "google" and not params and ret:
             out.append("KF-RT-google-retonly")
+    if kind in ("function", "method") and sid == "p1_code2":
+        out.append("KF-RT-code-default-literal-eval-crash")
     return out
 
 
@@ -41,7 +43,7 @@ def obligations(tier, seed):
         for i, sid in enumerate(shapes):
             for dd in (True, False):
                 if tier == "quick" and ((i + (0 if dd else 1)) % 3 != 0 or (kind in ("method",) and i % 2)) and not (
-                        sid in ("p1_int_d", "p1_str_s") and dd):
+                        sid in ("p1_int_d", "p1_str_s", "p1_code2") and dd):
                     continue
                 opts = {"emit_default_doc": dd}
                 if kind in ("function", "method"):
